@@ -10,7 +10,7 @@ pre-order when the case is encoded, so shrinking never has to keep ids consisten
   ["X", k]                      throw kind k (0 TypeError 1 KeyError 2 ValueError 3 IOError 4 UserExc 5 UserExcEOF 6 User
                                 7 IndexOutOfBoundsError 8 ClassError 9 FormatError)
   ["X", k, how]                 how 1: K[k] is raised by a library function called at this point (kinds in LIBK only),
-                                how 2 / 3: throw with a 300 / 6000 character message; how 0 == ["X", k]
+                                how 2 / 3: throw with a 300 / 6000 character message; how 4: a message format with literal %% signs; how 0 == ["X", k]
   ["C", t]                      real function call around t
   ["S", [t...]]                 sequence
   ["T", filt, body, handler]    try/catch; filt = "A" (catch-all) or a list of 1, 2, 3, 5 or 8 distinct kinds
@@ -390,7 +390,7 @@ def _show(t):
         return "M%d" % t[1]
     if k == "X":
         how = t[2] if len(t) > 2 else 0
-        return ("throw(%s)", "library-raises(%s)", "throw(%s, 300 chars)", "throw(%s, 6000 chars)")[how] % KN[t[1]]
+        return ("throw(%s)", "library-raises(%s)", "throw(%s, 300 chars)", "throw(%s, 6000 chars)", "throw(%s, format with %%%%)")[how] % KN[t[1]]
     if k == "C":
         return "call{%s}" % _show(t[1])
     if k == "S":
@@ -415,7 +415,7 @@ def _validate(case):
                     raise HarnessBug("no catch site of arity %d" % len(f))
             if n[0] == "N" and not (isinstance(n[1], int) and 1 <= n[1] <= MAX_OPEN):
                 raise HarnessBug("bad nest count %r" % (n[1],))
-            if n[0] == "X" and len(n) > 2 and (n[2] not in (0, 1, 2, 3) or (n[2] == 1 and n[1] not in LIBK)):
+            if n[0] == "X" and len(n) > 2 and (n[2] not in (0, 1, 2, 3, 4) or (n[2] == 1 and n[1] not in LIBK)):
                 raise HarnessBug("bad throw node %r" % (n,))
     thr = case.get("thread") or []
     if not (isinstance(thr, list) and all(isinstance(h, int) and -1 <= h <= 3 for h in thr)):
@@ -600,11 +600,13 @@ class _Gen:
 
     def how(self, x):
         """the way the exception is raised: the throw macro (short or long message) or a library function"""
-        c = self.draw(st.integers(0, 9))
+        c = self.draw(st.integers(0, 10))
         if c <= 5:
             return x
         if c <= 7:
             return x + [1] if x[1] in LIBK else x
+        if c == 10:
+            return x + [4]                       # message format with literal % signs
         return x + [2 if c == 8 else 3]
 
     def throw(self, k, lexical=False):
